@@ -13,7 +13,7 @@ EXTENDS HexaryTrie, TraceConsts_Hexary, Json, IOUtils, TLCExt
 
 Traces == JsonDeserialize(IOEnv.TRACE_FILE)
 TBoth == {TRUE, FALSE}
-TFeatures == {"direct", "batch", "second", "lose", "failwrite", "get", "noop"}
+TFeatures == {"direct", "batch", "second", "checkout", "lose", "failwrite", "get", "noop"}
 TNoBugs == {}
 Big == 100000
 VARIABLES tid, l, bad, odb, sodb
@@ -52,6 +52,7 @@ Act(ev) ==
     [] ev.a = "commitfail" -> CommitFail(ev.j)
     [] ev.a = "failwrite" -> FailWrite(ev.k, V(ev.v), ev.j)
     [] ev.a = "adopt" -> \E p \in past : p.r = Inflate(ev.root) /\ Adopt2(p)
+    [] ev.a = "checkout" -> \E p \in past : p.r = Inflate(ev.root) /\ Checkout(p)
     [] ev.a = "lose" -> EnvLose(Inflate(ev.n))
     [] ev.a = "supply" -> EnvSupply(Inflate(ev.n))
     [] ev.a \in {"get", "bget"} -> Get(ev.k)
